@@ -442,6 +442,20 @@ example : layout ⟨16, 8, 8, 8⟩ 3 = some (⟨72, 8⟩, 24, 3) ∧ (⟨16, 8, 
 example : layout ⟨1, 1, 8, 8⟩ 33 = some (⟨64, 8⟩, 24, 40) ∧ layout ⟨1, 1, 8, 8⟩ 40 = some (⟨64, 8⟩, 24, 40) := by
   decide
 
+/-- Sizes that are not the alignment, odd sizes included (the element types `b3` 3/1, `h3` 6/2,
+    `w3` 12/4, `q3` 24/8, `a20` 32/16 of the differential): the hypotheses of `layout_idem` /
+    `data_fits` are met by them, and the capacity really is the FLOOR of `(size − offset) / szT`
+    with `szT` the element SIZE — 10 three-byte elements in the 32 bytes after a 24-byte header,
+    not 11 (`div_ceil`) and not 32 (division by the alignment): either would contradict
+    `data_fits` (`24 + 11 * 3 > 56`). -/
+example :
+    layout ⟨3, 1, 8, 8⟩ 10 = some (⟨56, 8⟩, 24, 10) ∧ layout ⟨6, 2, 8, 8⟩ 5 = some (⟨56, 8⟩, 24, 5) ∧
+    layout ⟨12, 4, 8, 8⟩ 2 = some (⟨48, 8⟩, 24, 2) ∧ layout ⟨24, 8, 8, 8⟩ 1 = some (⟨48, 8⟩, 24, 1) ∧
+    layout ⟨32, 16, 8, 8⟩ 1 = some (⟨64, 16⟩, 32, 1) ∧ layout ⟨3, 1, 16, 16⟩ 10 = some (⟨64, 16⟩, 32, 10) ∧
+    (⟨3, 1, 8, 8⟩ : TVParams).Ok ∧ ¬ (24 + 11 * 3 ≤ 56) := by
+  refine ⟨by decide, by decide, by decide, by decide, by decide, by decide,
+    ⟨⟨0, by decide, rfl⟩, ⟨3, by decide, rfl⟩⟩, by decide⟩
+
 /-- **The elements fit in the allocation and are aligned** (non-zero-sized `T`):
     `offset + capacity * size_of::<T>() ≤ layout.size`, `offset % align_of::<T>() = 0`, the
     rounded capacity is at least the requested one, and the allocation stays within
